@@ -4,6 +4,7 @@ pub mod codec;
 pub mod comp;
 pub mod gen;
 pub mod guard;
+pub mod model;
 pub mod mon;
 pub mod mvtsrc;
 pub mod pipe;
